@@ -364,6 +364,14 @@ theorem channel_roundtrip (T : Heap) (vf : Def → Bool) (hT : HeapCWF vf T) (fu
     · simp only [ItemWF, Marsh.Int32]; constructor <;> omega
     · exact hv v hvm
 
+/-- `peg_marshal` / the reading part of `peg_unmarshal` are well paired for every compiled PEG: any bytecode length, any
+constants (through `abstract_hook_roundtrip`: the words and the constants, with their sharing, come back; that `peg_unmarshal`
+then accepts them - its bytecode verifier - and recomputes `has_backref` is tested by `pegfields.c`, not modelled) -/
+theorem peg_hooks_paired (bytecode : List Int) (constants : List Val) (hb : bytecode.length ≤ 2147483647)
+    (hc : constants.length < 2147483648) :
+    WellPaired pegProg (pegItems bytecode constants).1 (pegItems bytecode constants).2 :=
+  peg_wellPaired bytecode constants hb hc
+
 /-- non-vacuity: a channel holding the same array twice (and an integer); the second occurrence goes out as a reference
 (`218, 1`) and comes back as the same object; bytes as `(marshal ch)` produces them after the type name -/
 example : marshalHook (fun v c => marshalC 5 ⟨[.abs .nil [.byte 0] [.byte 0, .int 10, .int 3, .janet (.ref 1), .janet (.int 7), .janet (.ref 1)],
